@@ -18,7 +18,7 @@ from numba_scfg.core.datastructures.basic_block import (
 )
 
 from vpbt import ast_checks as A, gen_graphs as gg, gen_programs as gp, models as M, prog_check as P, pyexec as X
-from vpbt.core import Collector, h64, lib_frame
+from vpbt.core import Collector, h64, lib_frame, library_raised
 
 PID = "C10"
 RULE = (
@@ -194,6 +194,8 @@ def check_g4(g, depth=9, max_runs=96):
     try:
         scfg.restructure()
     except Exception as e:
+        if not library_raised(e):
+            raise
         return "not_evaluated", None, str(e), {}
     orig = "def g():\n    pass\n"
     try:
